@@ -29,6 +29,7 @@ type c07Conn struct {
 	pending  [][]byte // complete inbound messages not yet (fully) read
 	pfrags   []int    // fragment count of each pending message
 	curFrags int
+	compHist int // bytes of compressed-message payload received under takeover (this connection\'s own LZ77 history)
 	cur      io.Reader
 	curWant  []byte
 	curOff   int
@@ -47,9 +48,16 @@ var c07Modes = []c03Mode{
 	{"client/off", true, websocket.CompressionDisabled, ""},
 }
 
+type c07Kept struct {
+	conn int
+	data []byte // what Conn.Read returned (the library's slice, kept by the "application")
+	want []byte
+}
+
 type c07State struct {
 	e     *env
 	conns []*c07Conn
+	kept  []c07Kept
 	// bookkeeping for the non-trivial rule
 	released     map[int]bool // connections that released pooled reader state (EOF, error, close)
 	crossReuse   int
@@ -82,6 +90,9 @@ func (c *c07Conn) frames(payload []byte, compress bool, nfrag int, text bool) []
 	comp := compress && c.lc.Agreed.Deflate
 	if comp {
 		raw = c.def.Message(payload, ref.DVSync)
+		if c.lc.Agreed.SenderTakeover(!c.mode.Client) {
+			c.compHist += len(payload) // this connection's own LZ77 history grows
+		}
 	}
 	per := len(raw)/nfrag + 1
 	var out []ref.Frame
@@ -367,6 +378,57 @@ func TestC07(t *testing.T) {
 					}
 					s.release(c.id, "wsjson")
 				},
+				"connRead": func(rt *rapid.T) {
+					// Conn.Read hands out a whole message; the application keeps it
+					c := s.pick(rt, func(c *c07Conn) bool { return c.alive && c.cur == nil && len(c.pending) > 0 })
+					if c == nil {
+						return
+					}
+					step("connRead(c%d)", c.id)
+					var got []byte
+					var err error
+					s.call(rt, "Conn.Read", func() { _, got, err = c.lc.C.Read(context.Background()) })
+					want := c.pending[0]
+					c.pending = c.pending[1:]
+					if len(c.pfrags) > 0 {
+						c.pfrags = c.pfrags[1:]
+					}
+					if err != nil || !bytes.Equal(got, want) {
+						rt.Fatalf("C07: conn %d (%s): Conn.Read returned %d bytes, err=%v; want this connection's own message of %d bytes\nsteps: %v", c.id, c.mode.Name, len(got), err, len(want), s.steps)
+					}
+					s.kept = append(s.kept, c07Kept{c.id, got, want})
+					s.release(c.id, "eof")
+				},
+				"probeWindow": func(rt *rapid.T) {
+					// a hostile peer asks for bytes that lie before the start of this
+					// connection's own compressed history: whatever the window still
+					// holds from another (closed) connection would come out
+					c := s.pick(rt, func(c *c07Conn) bool {
+						return c.alive && c.cur == nil && len(c.pending) == 0 && c.lc.Agreed.Deflate && c.lc.Agreed.SenderTakeover(!c.mode.Client) && c.compHist+258 <= 32768
+					})
+					if c == nil {
+						return
+					}
+					dist := c.compHist + 258 + rapid.SampledFrom([]int{0, 1, 1000}).Draw(rt, "beyond")
+					if dist > 32768 {
+						dist = 32768
+					}
+					step("probeWindow(c%d,dist=%d,ownHistory=%d)", c.id, dist, c.compHist)
+					c.lc.Peer.send(ref.Frame{Fin: true, Opcode: ref.OpBinary, Rsv1: true, Payload: ref.CraftBackref(dist)})
+					var got []byte
+					s.call(rt, "read of a crafted back-reference", func() {
+						_, r, err := c.lc.C.Reader(context.Background())
+						if err != nil {
+							return
+						}
+						got, _ = io.ReadAll(r)
+					})
+					if len(got) > 0 {
+						rt.Fatalf("C07: conn %d (%s): a compressed message that only references data from before this connection's own history (distance %d, own history %d bytes) was inflated to %d bytes: %x... - the window still held another connection's data\nsteps: %v", c.id, c.mode.Name, dist, c.compHist, len(got), got[:min(16, len(got))], s.steps)
+					}
+					c.alive = false // the stream was malformed for this connection: it is done
+					s.release(c.id, "probe")
+				},
 				"idle": func(rt *rapid.T) {
 					e.sleep(time.Millisecond) // always enabled, so a run in which every connection has ended can finish
 				},
@@ -416,6 +478,11 @@ func TestC07(t *testing.T) {
 					if !bytes.Equal(m.Payload, c.written[i]) {
 						rt.Fatalf("C07: conn %d: written message %d differs on the wire (compression state shared?)\nsteps: %v", c.id, i, s.steps)
 					}
+				}
+			}
+			for _, k := range s.kept {
+				if !bytes.Equal(k.data, k.want) {
+					rt.Fatalf("C07: the message Conn.Read returned on conn %d changed after later reads (it aliases a pooled buffer): first difference at %d\nsteps: %v", k.conn, firstDiff(k.data, k.want), s.steps)
 				}
 			}
 			classes := []string{}
